@@ -130,6 +130,8 @@ func evalPrograms(thorough bool) []progSpec {
 	out = append(out, subsetOf(n, allIdx(n), kN, nil)...)
 	m := gen.PoolM()
 	out = append(out, subsetOf(m, allIdx(m), 3, nil)...)
+	l := gen.PoolL()
+	out = append(out, subsetOf(l, allIdx(l), 3, nil)...)
 	b := gen.PoolB()
 	kB := 2
 	if thorough {
@@ -187,7 +189,7 @@ func c01(r *rt.Run) {
 		}
 		c01Program(r, progs[i], kinds, i)
 	})
-	r.Finish("every subset of <=k rules of pools G (graph), R (rounds), N (negation), M (predicates with inline facts before/after their rules), B (built-ins) x every EDB of the pool x store kinds; " +
+	r.Finish("every subset of <=k rules of pools G (graph), R (rounds), N (negation), M (predicates with inline facts before/after their rules), L (bodies of 4-8 literals), B (built-ins) x every EDB of the pool x store kinds; " +
 		"non-trivial = reference model needs >=3 rounds in a stratum, or has >=2 strata with a non-empty derived relation; distinct by construction (program,EDB)")
 }
 
